@@ -432,3 +432,58 @@ Example ex_do_string_root :
   j2t_do strict [] (mkOpts false false false false) (TList TI32) [91; 49] = Err E_PARSE /\
   j2t_do strict [] (mkOpts false false false false) (TList TI32) [] = Err E_PARSE.
 Proof. vm_compute. repeat split; reflexivity. Qed.
+
+(* ================================================================== (G) the flag word of the native converter *)
+(* conv/j2t toFlags is translated from the Go source on every build (gen/Gen_j2tflags.v; the constants types.F_* in
+   gen/Gen_nativetypes.v).  A change of the Go text re-states these theorems about the new text. *)
+From DG Require Import NativeFlags Gen_nativetypes Gen_j2tflags Check20g GenJ2tflagsProofs.
+
+(* the Go constants are the single, pairwise distinct bits 0..8 declared in native/thrift.h *)
+Theorem C02_flag_constants :
+  [F_ALLOW_UNKNOWN; F_WRITE_DEFAULT; F_VALUE_MAPPING; F_HTTP_MAPPING; F_STRING_INT; F_WRITE_REQUIRE; F_NO_BASE64; F_WRITE_OPTIONAL; F_TRACE_BACK]
+    = native_flag_list /\
+  map Z.log2 [F_ALLOW_UNKNOWN; F_WRITE_DEFAULT; F_VALUE_MAPPING; F_HTTP_MAPPING; F_STRING_INT; F_WRITE_REQUIRE; F_NO_BASE64; F_WRITE_OPTIONAL; F_TRACE_BACK]
+    = [0; 1; 2; 3; 4; 5; 6; 7; 8].
+Proof. split; [exact go_flag_constants_are_native | exact (proj1 go_flag_constants_single_bits)]. Qed.
+Print Assumptions C02_flag_constants.
+
+(* each option sets exactly its bit (DisallowUnknownField: the ABSENCE of F_ALLOW_UNKNOWN), nothing else is set *)
+Theorem C02_toFlags_exact :
+  forall o, toFlags o =
+    bit_if (toFlags_opts_WriteDefaultField o) F_WRITE_DEFAULT + bit_if (negb (toFlags_opts_DisallowUnknownField o)) F_ALLOW_UNKNOWN +
+    bit_if (toFlags_opts_EnableValueMapping o) F_VALUE_MAPPING + bit_if (toFlags_opts_EnableHttpMapping o) F_HTTP_MAPPING +
+    bit_if (toFlags_opts_String2Int64 o) F_STRING_INT + bit_if (toFlags_opts_WriteRequireField o) F_WRITE_REQUIRE +
+    bit_if (toFlags_opts_NoBase64Binary o) F_NO_BASE64 + bit_if (toFlags_opts_WriteOptionalField o) F_WRITE_OPTIONAL +
+    bit_if (toFlags_opts_ReadHttpValueFallback o) F_TRACE_BACK.
+Proof. exact toFlags_exact. Qed.
+Print Assumptions C02_toFlags_exact.
+
+(* for EVERY setting of the nine options: the option record the native converter reads off the word (flags & F_X as in
+   native/thrift.c) is the option record of the J2T model *)
+Theorem C02_toFlags_denotes_jopts :
+  forall o, jopts_of_flags (toFlags o) =
+  mkOpts (toFlags_opts_DisallowUnknownField o) (toFlags_opts_String2Int64 o) (toFlags_opts_NoBase64Binary o) (toFlags_opts_EnableValueMapping o).
+Proof. exact toFlags_jopts. Qed.
+Print Assumptions C02_toFlags_denotes_jopts.
+
+(* flags_of_model_opts = toFlags (the conv.Options the harness builds from the model's options), and back *)
+Theorem C02_flags_of_jopts_from_source :
+  forall o : jopts, flags_of_jopts o = toFlags (opts_of_jopts o) /\ jopts_of_flags (toFlags (opts_of_jopts o)) = o.
+Proof. intro o. split; [apply flags_of_jopts_is_toFlags | apply jopts_flags_roundtrip]. Qed.
+Print Assumptions C02_flags_of_jopts_from_source.
+
+(* check 291 compares the real function with the generated definition AND with the native word: the two expectations coincide *)
+Theorem C02_check_291_expectations :
+  forall b flags, (toFlags (opts_of_bits b) =? flags) = (nflags_of_bits b =? flags).
+Proof. exact check_toflags_codes. Qed.
+Print Assumptions C02_check_291_expectations.
+
+Example ex_toFlags_default : toFlags (opts_of_jopts (mkOpts false false false false)) = 1 /\ toFlags (opts_of_jopts (mkOpts true true true true)) = 84.
+Proof. split; reflexivity. Qed.
+
+(* (G) JSON whitespace: internal/json IsSpace (the blank mask the converter's front end skips with), from the Go source
+   (gen/Gen_json.v), is the whitespace of the Json.v grammar *)
+From DG Require Gen_json GenJsonProofs.
+Theorem C02_IsSpace_from_source : forall c, 0 <= c < 256 -> Gen_json.IsSpace c = is_ws c.
+Proof. exact GenJsonProofs.IsSpace_is_ws. Qed.
+Print Assumptions C02_IsSpace_from_source.
